@@ -2,19 +2,54 @@ module verifharness
 
 go 1.26
 
-require go.minekube.com/gate v0.0.0
+require (
+	github.com/robinbraemer/event v0.1.1
+	go.minekube.com/common v0.4.0
+	go.minekube.com/connect v0.6.3-0.20260803141147-8001cda93b1d
+	go.minekube.com/gate v0.0.0
+	google.golang.org/protobuf v1.36.11
+)
 
 require (
+	buf.build/gen/go/minekube/connect/protocolbuffers/go v1.36.10-20240220124425-904ce30425c9.1 // indirect
+	github.com/Tnze/go-mc v1.20.2 // indirect
+	github.com/agext/levenshtein v1.2.3 // indirect
 	github.com/cespare/xxhash/v2 v2.3.0 // indirect
+	github.com/davecgh/go-spew v1.1.2-0.20180830191138-d8f796af33cc // indirect
+	github.com/dboslee/lru v0.0.1 // indirect
+	github.com/ebitengine/purego v0.10.2 // indirect
+	github.com/edwingeng/deque/v2 v2.1.1 // indirect
+	github.com/emirpasic/gods v1.18.1 // indirect
 	github.com/felixge/httpsnoop v1.0.4 // indirect
-	github.com/go-logr/logr v1.4.3 // indirect
+	github.com/francoispqt/gojay v1.2.13 // indirect
+	github.com/fsnotify/fsnotify v1.9.0 // indirect
+	github.com/gammazero/deque v1.2.1 // indirect
+	github.com/go-logr/logr v1.4.3
 	github.com/go-logr/stdr v1.2.2 // indirect
+	github.com/golang/groupcache v0.0.0-20241129210726-2c02b8208cf8 // indirect
 	github.com/google/uuid v1.6.0 // indirect
+	github.com/jellydator/ttlcache/v3 v3.4.1 // indirect
+	github.com/lucasb-eyer/go-colorful v1.4.0 // indirect
+	github.com/nfnt/resize v0.0.0-20180221191011-83c6a9932646 // indirect
+	github.com/pires/go-proxyproto v0.13.0
+	github.com/segmentio/fasthash v1.0.3 // indirect
+	github.com/zyedidia/generic v1.2.1 // indirect
+	go.minekube.com/brigodier v0.0.2
+	go.minekube.com/vialite v0.3.0 // indirect
 	go.opentelemetry.io/auto/sdk v1.2.1 // indirect
 	go.opentelemetry.io/contrib/instrumentation/net/http/otelhttp v0.69.0 // indirect
 	go.opentelemetry.io/otel v1.44.0 // indirect
 	go.opentelemetry.io/otel/metric v1.44.0 // indirect
 	go.opentelemetry.io/otel/trace v1.44.0 // indirect
+	go.uber.org/atomic v1.11.0 // indirect
+	golang.org/x/exp v0.0.0-20260611194520-c48552f49976 // indirect
+	golang.org/x/sync v0.21.0 // indirect
+	golang.org/x/sys v0.45.0 // indirect
+	golang.org/x/text v0.38.0 // indirect
+	golang.org/x/time v0.14.0 // indirect
+	google.golang.org/genproto/googleapis/rpc v0.0.0-20260414002931-afd174a4e478
+	google.golang.org/grpc v1.82.1 // indirect
+	gopkg.in/yaml.v3 v3.0.1 // indirect
 )
 
 replace go.minekube.com/gate => /repo
